@@ -50,6 +50,9 @@ SHIMS = CORE_SHIM_MODULES + PAULI_MODULES + [
     'cirq.sim.simulation_utils',
     'cirq.sim.state_vector_simulator',
     'cirq.study.resolver',
+    'cirq.sim.density_matrix_simulator',
+    'cirq.sim.density_matrix_simulation_state',
+    'cirq.sim.density_matrix_utils',
 ]
 
 CBOX = 2.0  # box of real / imaginary parts of symbolic coefficients
@@ -61,7 +64,15 @@ def worker_setup():
     from symx.complex_shim import install_complex
     from symx.np_intsym import install_intsym
 
-    return install_complex(PAULI_MODULES) + install_intsym(['cirq.ops.dense_pauli_string', 'cirq.ops.pauli_string'])
+    from symx.eigvalsh_model import install as install_eigvalsh
+    from symx.sparse_model import install_sparse
+
+    return (
+        install_eigvalsh()
+        + install_complex(PAULI_MODULES)
+        + install_intsym(['cirq.ops.dense_pauli_string', 'cirq.ops.pauli_string'])
+        + install_sparse(['cirq.ops.pauli_string', 'cirq.ops.linear_combinations'])
+    )
 
 
 # ------------------------------------------------------------------------------------------------
@@ -1323,7 +1334,306 @@ def obligations(tier):
         points=pts(0),
         twin=False,
     )
+
+    # ================================================================================================
+    # J: sparse matrices (scipy.sparse containers modelled for symbolic entries: symx/sparse_model.py)
+    # ================================================================================================
+    # qubit-order menu per register size: all permutations up to 3 qubits, 5 orders on 4 qubits
+    ORD4 = [(0, 1, 2, 3), (3, 2, 1, 0), (1, 2, 3, 0), (2, 0, 3, 1), (0, 2, 1, 3)]
+    NSP = (1, 2, 3, 4)
+
+    def sp_orders(n):
+        return list(itertools.permutations(range(n))) if n < 4 else ORD4
+
+    def sp_dense(cx, m, dim, label):
+        """dense array of a returned sparse matrix + container contract (csr format, shape)"""
+        cx.check(getattr(m, 'format', None) == 'csr', label=label + ': csr format')
+        cx.check(tuple(m.shape) == (dim, dim), label=label + ': shape')
+        return m.toarray()
+
+    def sparse_string_body(cx, bad=False):
+        n = NSP[cx.choose('n', len(NSP))]
+        qs = cirq.LineQubit.range(n)
+        letters = choose_letters(cx, 'P', n)  # 0 = qubit absent from the string (identity factor of the register)
+        c = sym_c(cx, 'a')
+        orders = sp_orders(n)
+        order = orders[cx.choose('order', len(orders))]
+        ps = mk_ps(qs, letters, c)
+        oq = [qs[i] for i in order]
+        exp = PA.string_matrix([letters[i] for i in order], c)
+        got = sp_dense(cx, ps.sparse_matrix(oq), 2**n, 'sparse_matrix(order)')
+        cx.close(got, wrong(exp) if bad else exp, label='PauliString.sparse_matrix(order)')
+        # generator argument (documented Iterable), and the default = the string's own qubits in insertion order
+        cx.close(ps.sparse_matrix(q for q in oq).toarray(), exp, label='PauliString.sparse_matrix(iterable)')
+        act = [l for l in letters if l]
+        cx.close(sp_dense(cx, ps.sparse_matrix(), 2 ** len(act), 'sparse_matrix()'), PA.string_matrix(act, c), label='PauliString.sparse_matrix()')
+        # agreement with the dense matrix() on a register that OMITS the first qubit of the string (both ignore it)
+        if n >= 2 and sum(1 for l in letters if l) >= 1:
+            sub = [q for q in oq if q != qs[[k for k in range(n) if letters[k]][0]]]
+            cx.close(ps.sparse_matrix(sub).toarray(), ps.matrix(sub), label='sparse_matrix(sub-register) == matrix(sub-register)')
+
+    add(
+        'sparse.pauli_string',
+        sparse_string_body,
+        'PauliString.sparse_matrix(qubits) for EVERY letter tuple on registers of 1-4 qubits (0-4 Y factors; identity letters = register qubits absent from the string), all qubit orders up to 3 qubits / 5 orders on 4, list / generator / default qubits, SYMBOLIC complex coefficient, vs coefficient * kron of the 2x2 Paulis; csr format and shape; agreement with matrix() on a sub-register',
+        points=pts(4, **{'choose:n': [3, 2, 3, 1], 'choose:P': [170, 27, 166, 10], 'choose:order': [1, 4, 3, 1]}),
+        weight=6,
+    )
+
+    # sums: P over every string (2-3 qubits) / a 4-qubit menu with up to four Y factors; Q, R from menus
+    SP4 = [(2, 2, 2, 2), (2, 2, 2, 1), (1, 2, 3, 2), (3, 0, 3, 2), (0, 0, 0, 0), (2, 0, 2, 0), (0, 2, 2, 0), (3, 3, 0, 0), (2, 1, 2, 3), (0, 0, 0, 2)]
+    SPQ = {2: [(2, 2), (3, 0), None], 3: [(2, 2, 2), (3, 0, 3)], 4: [(2, 2, 2, 2), (3, 0, 0, 3), (0, 3, 0, 0)]}  # None: equal to P
+    SPR = {2: (3, 3), 3: (0, 2, 2), 4: (2, 3, 2, 0)}
+    NSS = (2, 3, 4)
+    # (qubit order kind, extra idle qubit inside the order, number of terms)
+    SPCFG = [('id', 0, 2), ('rev', 1, 3), ('rot', 0, 3), ('rev', 0, 2)]
+
+    def sparse_sum_body(cx, bad=False):
+        n = NSS[cx.choose('n', len(NSS))]
+        qs = cirq.LineQubit.range(n)
+        la = SP4[cx.choose('P4', len(SP4))] if n == 4 else choose_letters(cx, 'P', n)
+        cfg = cx.choose('config', len(SPCFG))
+        okind, extra, nterms = SPCFG[cfg]
+        qmenu = [q for q in SPQ[n] if q is not None or cfg < 2]  # the merge / cancellation case runs in two of the four configurations
+        lb = qmenu[cx.choose('Q', len(qmenu))]
+        lb = tuple(la) if lb is None else lb
+        lc = SPR[n]
+        a, b, c = ray_c(cx, 'a', lo=0.25), ray_c(cx, 'b', lo=0.25), ray_c(cx, 'c', lo=0.25)
+        order = {'id': tuple(range(n)), 'rev': tuple(reversed(range(n))), 'rot': tuple(range(1, n)) + (0,)}[okind]
+        S = mk_ps(qs, la, a) + mk_ps(qs, lb, b)
+        terms = [(la, a), (lb, b)]
+        if nterms == 3:
+            S = S + mk_ps(qs, lc, c)
+            terms.append((lc, c))
+        oq = [qs[i] for i in order]
+        pos = list(order)
+        if extra:
+            oq.insert(1, cirq.NamedQubit('idle'))
+            pos.insert(1, None)
+        exp = np.zeros((2 ** len(oq),) * 2, dtype=complex)
+        for l, co in terms:
+            exp = PA.add(exp, PA.string_matrix([0 if i is None else l[i] for i in pos], co))
+        got = sp_dense(cx, S.sparse_matrix(oq), 2 ** len(oq), 'PauliSum.sparse_matrix(order)')
+        cx.close(got, wrong(exp) if bad else exp, label='PauliSum.sparse_matrix(order)')
+        cx.close(S.matrix(oq), exp, label='PauliSum.matrix(order)')
+        # default: the sorted qubits the remaining terms act on
+        dq = sorted(S.qubits)
+        cx.check(tuple(S.qubits) == tuple(dq), label='PauliSum.qubits sorted')
+        cx.close(sp_dense(cx, S.sparse_matrix(), 2 ** len(dq), 'PauliSum.sparse_matrix()'), sum_matrix(S, dq), label='PauliSum.sparse_matrix() == sum of term matrices over .qubits')
+
+    add(
+        'sparse.pauli_sum',
+        sparse_sum_body,
+        'PauliSum.sparse_matrix(qubits) and .matrix(qubits) of 2-3 term sums: P over every string on 2-3 qubits / 10 four-qubit strings (up to four Y factors), Q over 5 strings or equal to P (merge; cancellation rho_a == rho_b is a fork and leaves fewer terms / the empty sum), optional third term; 3 qubit orders, optional extra idle qubit inside the order, default qubits; coefficients rho*w with SYMBOLIC rho in [0.25, 2] on fixed complex directions; vs the sum of coefficient * kron matrices (overlapping entries of different terms are summed: COO duplicates)',
+        points=pts(4, **{'choose:n': [0, 1, 2, 0], 'choose:P': [6, 42, 0, 9], 'choose:P4': [0, 0, 3, 0], 'choose:Q': [0, 1, 1, 2], 'choose:config': [0, 1, 2, 1], 'ar': [0.5, 0.5, 1.25, 0.75], 'br': [0.75, 0.5, 0.5, 0.75], 'cr': [1.5, 0.25, 1.0, 0.5]}),
+        weight=9,
+        opts={'depth_limit': 4000},
+    )
+
+    # ================================================================================================
+    # K: simulate_expectation_values / _sweep / _sweep_iter with non-default arguments
+    # ================================================================================================
+    import sympy
+
+    SX, SY = sympy.Symbol('x'), sympy.Symbol('y')
+    IDLE = cirq.NamedQubit('idle')
+
+    def sev_shapes(qs, u, mix):
+        """(operations with sympy symbols x, y and a directly given exponent u, documented steps as a function of the
+        resolved values) on 2 and 3 qubits.  x sits on an XPowGate (whose _apply_unitary_ has an exponent == 1 fast path:
+        a fork per resolver), y and u on phase-type gates (no forks).  mix: Hadamards that turn the phases into populations
+        (left out with a symbolic initial vector: the final amplitudes stay single products there, which keeps the |amplitude|**2
+        of the normalisation check inside expectation_from_state_vector decidable in reasonable time)."""
+        H = [(cirq.H, D.H(1.0))] if mix else []
+        if len(qs) == 2:
+            seq = [((cirq.X**SX), lambda vx, vy: D.X(vx), [0]), (cirq.CNOT, D.CX(1.0), [0, 1]), (cirq.ZPowGate(exponent=SY), lambda vx, vy: D.Z(vy), [1]), (cirq.CZPowGate(exponent=u), D.CZ(u), [1, 0])] + [(g, M, [1]) for g, M in H]
+        else:
+            seq = [((cirq.X**SX), lambda vx, vy: D.X(vx), [2])] + [(g, M, [1]) for g, M in H] + [(cirq.CNOT, D.CX(1.0), [2, 0]), (cirq.ZPowGate(exponent=SY), lambda vx, vy: D.Z(vy), [0]), (cirq.CZPowGate(exponent=u), D.CZ(u), [1, 0])] + [(g, M, [0]) for g, M in H]
+        ops_ = [g.on(*[qs[i] for i in on]) for g, _, on in seq]
+        return ops_, lambda vx, vy: [(M(vx, vy) if callable(M) else M, on) for _, M, on in seq]
+
+    # qubit orders: None = argument not passed (sorted qubits); 'e' = an extra idle qubit that the circuit does not touch
+    SEV_ORDERS = {2: [None, (1, 0), (1, 'e', 0)], 3: [(2, 0, 1), (1, 2, 0), (0, 'e', 2, 1)]}
+    SEV_P = {2: [(1, 3), (2, 0), (0, 1), (3, 2)], 3: [(1, 3, 0), (2, 0, 3), (0, 1, 2), (3, 2, 1)]}
+    SEV_Q = {2: (0, 2), 3: (3, 0, 1)}
+    SEV_BASIS = {2: [1, 2], 3: [5, 3], 4: [6, 9]}
+    # symbolic initial vector cos(a)|b1> + e^{i pi b} sin(a)|b2>: (b1, b2) as qubit values (q0, q1[, q2]) that differ on a qubit other
+    # than the target of X**x, and the value of the idle wire
+    SEV_PAIRS = {2: [((0, 1), (1, 0), 1), ((1, 1), (1, 0), 0)], 3: [((0, 0, 1), (1, 1, 0), 1), ((1, 0, 1), (1, 1, 1), 0)]}
+
+    def sev_initial(cx, n, wires, kind):
+        """initial state over the register `wires` (axes in qubit_order): (argument handed to the simulator, tensor)"""
+        m = len(wires)
+        if kind == 0:
+            b = SEV_BASIS[m][cx.choose('basis', 2)]
+            t = np.zeros((2,) * m, dtype=complex)
+            t.reshape(-1)[b] = 1
+            return b, t
+        b1, b2, idle = SEV_PAIRS[n][cx.choose('pair', 2)]
+
+        def index(bits):
+            return int(''.join(str(idle if w == 'e' else bits[w]) for w in wires), 2)
+
+        t = normalised_state(cx, m, (index(b1), index(b2)))
+        return t, t
+
+    def sev_setup(cx, n, symbolic_u=True):
+        qs = cirq.LineQubit.range(n)
+        u = cx.real('u', -TBOX, TBOX) if symbolic_u else 0.25
+        ops_, steps_of = sev_shapes(qs, u, mix=symbolic_u)
+        order = SEV_ORDERS[n][cx.choose('order', len(SEV_ORDERS[n]))]
+        wires = list(range(n)) if order is None else list(order)  # wire k of the register holds qubit wires[k]
+        oq = None if order is None else [IDLE if i == 'e' else qs[i] for i in order]
+        pos = {i: wires.index(i) for i in range(n)}
+        return qs, ops_, steps_of, wires, oq, pos
+
+    def sev_state(steps, psi0, pos):
+        psi = psi0
+        for Mx, on in steps:
+            psi = EM.apply_matrix_to_axes(Mx, psi, [pos[i] for i in on])
+        return psi
+
+    def sev_observables(cx, qs, wires, form):
+        """(observables argument, [matrix over the register per returned value])"""
+        n = len(qs)
+        la = SEV_P[n][cx.choose('P', len(SEV_P[n]))]
+        lb = SEV_Q[n]
+        a, b = cx.real('ar', 0.25, CBOX), cx.real('br', -CBOX, -0.25)
+
+        def reg(l, c):
+            return PA.string_matrix([0 if i == 'e' else l[i] for i in wires], c)
+
+        zl = tuple(3 if k == n - 1 else 0 for k in range(n))
+        if form == 0:
+            return [mk_ps(qs, la, a) + mk_ps(qs, lb, b), mk_ps(qs, la, b)], [PA.add(reg(la, a), reg(lb, b)), reg(la, b)]
+        if form == 1:
+            return mk_ps(qs, la, a), [reg(la, a)]
+        if form == 2:
+            return mk_ps(qs, la, a) + mk_ps(qs, lb, b), [PA.add(reg(la, a), reg(lb, b))]
+        return [cirq.Z(qs[n - 1]), mk_ps(qs, la, a) - mk_ps(qs, lb, b)], [reg(zl, 1), PA.add(reg(la, a), reg(lb, -b))]
+
+    def sev_call(cx, sim, form, circuit, observables, kw, vals):
+        """entry point per observable form: 0 simulate_expectation_values(dict), 1 _sweep(list of 2 resolvers), 2 _sweep_iter
+        (list of 2 resolvers), 3 simulate_expectation_values(ParamResolver).  Returns [(values, (vx, vy))]"""
+        (vx, vy), (wx, wy) = vals
+        if form == 0:
+            return [(sim.simulate_expectation_values(circuit, observables, {'x': vx, 'y': vy}, **kw), (vx, vy))]
+        if form == 3:
+            return [(sim.simulate_expectation_values(circuit, observables, param_resolver=cirq.ParamResolver({SX: vx, 'y': vy}), **kw), (vx, vy))]
+        params = [cirq.ParamResolver({'x': vx, 'y': vy}), cirq.ParamResolver({'x': wx, 'y': wy})]
+        if form == 1:
+            res = sim.simulate_expectation_values_sweep(circuit, observables, params, **kw)
+            cx.check(isinstance(res, list), label='_sweep returns a list')
+        else:
+            it = sim.simulate_expectation_values_sweep_iter(circuit, observables, params, **kw)
+            cx.check(not isinstance(it, list), label='_sweep_iter returns an iterator')
+            res = list(it)
+        cx.check(len(res) == 2, label='one value list per resolver')
+        return [(res[0], (vx, vy)), (res[1], (wx, wy))]
+
+    def sev_values(cx, symbolic_y=True):
+        """values of (x, y) in the two resolvers; with a symbolic initial vector only x is symbolic (the number of monomials of
+        one expectation value is 3**(number of angle variables))"""
+        if symbolic_y:
+            return (cx.real('t', -TBOX, TBOX), cx.real('v', -TBOX, TBOX)), (cx.real('w', -TBOX, TBOX), cx.real('z', -TBOX, TBOX))
+        return (cx.real('t', -TBOX, TBOX), 0.5), (cx.real('w', -TBOX, TBOX), -0.75)
+
+    def sev_sv_body(cx, bad=False):
+        n = 2 + cx.choose('n', 2)
+        kind = cx.choose('init', 3)
+        qs, ops_, steps_of, wires, oq, pos = sev_setup(cx, n, symbolic_u=(kind == 0))
+        form = cx.choose('form', 4)
+        init, psi0 = sev_initial(cx, n, wires, min(kind, 1))
+        if kind == 2:
+            # the same symbolic vector handed over as a simulation-state object over the ordered qubits
+            init = cirq.StateVectorSimulationState(initial_state=psi0.copy(), qubits=oq if oq is not None else qs, dtype=np.complex128)
+        observables, mats = sev_observables(cx, qs, wires, form)
+        vals = sev_values(cx, symbolic_y=(kind == 0))
+        kw = {'initial_state': init}
+        if oq is not None:
+            kw['qubit_order'] = oq
+        sim = cirq.Simulator(dtype=np.complex128)
+        out = sev_call(cx, sim, form, cirq.Circuit(ops_), observables, kw, vals)
+        for ri, (got, (vx, vy)) in enumerate(out):
+            cx.check(len(got) == len(mats), label='one value per observable')
+            psi = sev_state(steps_of(vx, vy), psi0, pos).reshape(-1)
+            for k, M in enumerate(mats):
+                e = PA.expectation_sv(psi, M)
+                cx.close(got[k], e + 0.01 if (bad and k == len(mats) - 1 and ri == len(out) - 1) else e, label=f'Simulator expectation value [resolver {ri}][observable {k}]')
+
+    add(
+        'expect.simulator_arguments',
+        sev_sv_body,
+        'cirq.Simulator.simulate_expectation_values (dict / ParamResolver), _sweep and _sweep_iter (two resolvers) on 2- and 3-qubit circuits with sympy-parameterised gates resolved to SYMBOLIC values plus a directly symbolic exponent; NON-DEFAULT initial_state: basis index (2 per register size), a SYMBOLIC normalised entangled state vector (ndarray) and the same vector inside a StateVectorSimulationState; qubit_order: default / permuted / with an extra idle qubit; observables: list [PauliSum, PauliString], bare PauliString, bare PauliSum, [Z(q) operation, P - Q] with symbolic real coefficients, P from 4 qubit-asymmetric strings; vs explicit <psi|O|psi> of documented matrices applied to the initial state in register order',
+        weight=12,
+        opts={'max_paths': 40000, 'auto_points': 4},
+    )
+
+    def sev_dm_body(cx, bad=False):
+        n = 2
+        kind = cx.choose('init', 2)
+        qs, ops_, steps_of, wires, oq, pos = sev_setup(cx, n, symbolic_u=(kind == 0))
+        form = cx.choose('form', 4)
+        init, psi0 = sev_initial(cx, n, wires, kind)
+        init0 = None if isinstance(init, int) else init.copy()
+        observables, mats = sev_observables(cx, qs, wires, form)
+        vals = sev_values(cx, symbolic_y=False)
+        # a bit-flip channel with fixed probability in the middle of the circuit: the final state is MIXED,
+        # rho = (1-p) |psi_0><psi_0| + p |psi_1><psi_1| with psi_1 = the circuit with X inserted (documented mixture)
+        FLIP = 0.25
+        ops_ = ops_[:2] + [cirq.bit_flip(FLIP)(qs[1])] + ops_[2:]
+        kw = {'initial_state': init}
+        if oq is not None:
+            kw['qubit_order'] = oq
+        sim = cirq.DensityMatrixSimulator(dtype=np.complex128)
+        try:
+            out = sev_call(cx, sim, form, cirq.Circuit(ops_), observables, kw, vals)
+        except ValueError as e:
+            # the PSD test of validate_density_matrix runs on the over-approximated eigenvalues (symx/eigvalsh_model.py): its
+            # rejecting branch is a model artefact in symbolic mode (declared expected); every other rejection of this
+            # valid state, and any rejection on real numpy, is a failure
+            if cx.mode != 'concrete' and 'positive semidefinite' in str(e):
+                raise
+            cx.check(False, label=f'valid initial state / final density matrix rejected: {str(e)[:80]}')
+            return
+        if init0 is not None:
+            cx.close(init, init0, label='initial_state array not modified')
+        for ri, (got, (vx, vy)) in enumerate(out):
+            cx.check(len(got) == len(mats), label='one value per observable')
+            steps = steps_of(vx, vy)
+            psi_a = sev_state(steps, psi0, pos).reshape(-1)
+            psi_b = sev_state(steps[:2] + [(D.X(1.0), [1])] + steps[2:], psi0, pos).reshape(-1)
+            for k, M in enumerate(mats):
+                e = (1 - FLIP) * PA.expectation_sv(psi_a, M) + FLIP * PA.expectation_sv(psi_b, M)
+                cx.close(got[k], e + 0.01 if (bad and k == len(mats) - 1 and ri == len(out) - 1) else e, label=f'DensityMatrixSimulator expectation value [resolver {ri}][observable {k}]')
+
+    add(
+        'expect.density_matrix_simulator_arguments',
+        sev_dm_body,
+        'cirq.DensityMatrixSimulator.simulate_expectation_values / _sweep / _sweep_iter on the 2-qubit circuit with a bit_flip(0.25) channel in the middle (mixed final state), symbolic resolver value x (and symbolic u from a basis state), initial_state = basis index or SYMBOLIC state vector, qubit_order default / permuted / with an idle qubit, four observable forms: tr(rho O) by explicit sums over the documented mixture; the PSD validation runs on over-approximated eigenvalues (both outcomes explored)',
+        weight=12,
+        expected=(ValueError,),
+        opts={'max_paths': 40000, 'auto_points': 4},
+    )
     return obs
+
+
+def normalised_state(cx, m, pair):
+    """symbolic state on m wires, normalised BY CONSTRUCTION: (0.6+0.8i) cos(a) |b1> + e^{i pi b} sin(a) |b2> for two distinct
+    basis states (b1, b2) = pair: a two-parameter family (a in radians, b in half turns) that is entangled for
+    pairs differing in more than one bit."""
+    a = cx.real('sa', -TBOX, TBOX)
+    b = cx.real('sb', -2.0, 2.0)
+    t = np.empty((2,) * m, dtype=object)
+    t.reshape(-1)[:] = 0j
+    t.reshape(-1)[pair[0]] = (0.6 + 0.8j) * _cos(a)  # fixed unit phase: no amplitude is syntactically real (abs() of a real symbolic
+    # value is a sign-fork atom whose square the engine does not reduce; abs() of a complex one is sqrt(z z*))
+    t.reshape(-1)[pair[1]] = D.ph(b) * _sin(a)
+    if cx.mode == 'concrete':
+        return t.astype(complex)
+    from symx.proxy import wrap
+
+    return wrap(t)
 
 
 def _cos(x):
